@@ -101,6 +101,9 @@ func genLogsPkt(r *Rng, e srvEnc, n int) srvPkt {
 // a result schema that genScript uses instead of a generated one (directed cases)
 var c03ForcedSchema []*TNode
 
+// > 0: the script ends with an exception chain of exactly this many records
+var c03ForcedChain int
+
 func genScript(r *Rng, e srvEnc, withEOS bool) *respScript {
 	s := &respScript{}
 	ncols := 1 + r.Intn(3)
@@ -166,9 +169,19 @@ func genScript(r *Rng, e srvEnc, withEOS bool) *respScript {
 		s.pkts = append(s.pkts, mkData("d", 6), mkData("d", 3))
 	}
 	// tail
-	switch r.Intn(10) {
+	tail := r.Intn(10)
+	if c03ForcedChain > 0 {
+		tail = 0
+	}
+	switch tail {
 	case 0:
 		depth := 1 + r.Intn(5)
+		if r.Chance(30) {
+			depth = 6 + r.Intn(9) // long chains (a distributed query failing through several layers)
+		}
+		if c03ForcedChain > 0 {
+			depth = c03ForcedChain
+		}
 		var chain []srvExc
 		var codes []string
 		for i := 0; i < depth; i++ {
@@ -671,5 +684,11 @@ func runC03(c *Ctx) {
 			o.clientRev = c03Revs[r.Intn(len(c03Revs))]
 		}
 		c03Case(c, r.Fork(), o)
+	}
+	// directed: long exception chains (every record must come back: codes, names, messages, in order)
+	for _, depth := range []int{8, 9, 10, 17, 40} {
+		c03ForcedChain = depth
+		c03Case(c, r.Fork(), simOpts{serverRev: 54460})
+		c03ForcedChain = 0
 	}
 }
